@@ -437,7 +437,7 @@ val long_fill :
   nat -> n -> n -> arr -> n -> n -> n -> n -> n -> bool -> arr * bool
 
 val gen_small :
-  bool -> arr -> arr -> arr -> n -> arr -> n -> ((arr * arr) * arr) * bool
+  bool -> arr -> arr -> arr -> n -> arr -> n -> ((arr * arr) * arr) * ierr
 
 val setupStaticHeader : inflate -> inflate
 
@@ -623,3 +623,7 @@ val erun_ext :
   n -> n list list -> terminal -> n list -> (n list * rres) list * n
 
 val erun : n -> n list list -> terminal -> n list -> (n list * rres) list
+
+val rres_code : rres -> n
+
+val erun_obs : n -> n list list -> bool -> n list -> (n list * n) list * n
